@@ -224,4 +224,31 @@ theorem case_insensitive (upper : Str → Str) :
     unfold Router.handle
     rw [h]
 
+
+/-! ## Non-vacuity (history `nvOps` of `Props/C01.lean`: hypotheses `nvOps_ok`, `nvEnv_noSel`) -/
+section NonVacuity
+
+/-- HEAD falls back to GET -/
+example : (Router.run asciiUpper nvOps).handle asciiUpper nvEnv "head".toList "/a/b".toList =
+    .found 3 "GET".toList [] [] := by decide +kernel
+
+/-- ANY was removed: 405 with the remaining name -/
+example : (Router.run asciiUpper nvOps).handle asciiUpper nvEnv "PUT".toList "/a/b".toList =
+    .notAllowed "GET".toList := by decide +kernel
+
+/-- two names on one pattern: sorted Allow -/
+example : (Router.run asciiUpper nvOps).handle asciiUpper nvEnv "PUT".toList "//a/7/".toList =
+    .notAllowed "GET,POST".toList := by decide +kernel
+
+/-- no rule matches: 404, whatever the verb -/
+example : (Router.run asciiUpper nvOps).handle asciiUpper nvEnv "GET".toList "/a/c".toList =
+    .notFound [] [] "a/".toList := by decide +kernel
+
+/-- the instances above are inside the theorems' hypotheses (`histories`, `split_404_405` take the
+same `nvOps_ok`, `nvEnv_noSel`) -/
+example := dispatch_405_allow asciiUpper nvOps nvOps_ok nvEnv nvEnv_noSel "PUT".toList "/a/b".toList
+  "GET".toList (by decide +kernel)
+
+end NonVacuity
+
 end Ombott.Router
